@@ -420,6 +420,8 @@ FLAG_EXEMPT = {
 
 
 def run(ctx):
+    from . import c10
+    c10.rule_janus_sequence(ctx)     # R10.3/R10.5j: every stage of JANUS applies the same unit conversion (a stage with the wrong scale is a different method)
     rule_force_terms_flag(ctx)
     rule_ode_ownership(ctx)
     from . import c03 as _c03
